@@ -178,24 +178,32 @@ func checkC08(c *Ctx) {
 func (c *Ctx) checkCacheAfterStore() {
 	r := c.R
 	r.Floor("C08.5-cache-after-store", 3)
+	// the store writes (with a tested error) of a function, its helpers and function literals
+	writesOf := func(root *ssa.Function) []ssa.CallInstruction {
+		var regionFns []*ssa.Function
+		for f := range c.regionOf(root) {
+			regionFns = append(regionFns, f)
+		}
+		sort.Slice(regionFns, func(i, j int) bool { return fk(regionFns[i]) < fk(regionFns[j]) })
+		var writes []ssa.CallInstruction
+		for _, f := range regionFns {
+			for _, w := range c.storeWriteSinks(f) {
+				call, ok := w.(*ssa.Call)
+				if !ok {
+					continue
+				}
+				if f, _ := c.isStoreCall(call); f != nil && f.Name() == "LinkAttachments" {
+					continue
+				}
+				if ei := errIndex(call.Call.Signature()); ei >= 0 && errValue(call, ei) != nil {
+					writes = append(writes, call)
+				}
+			}
+		}
+		return writes
+	}
 	for _, fn := range c.P.ModFuncs {
 		if !core.InPkg(fn, "server") || !isPtrToNamedRecv(fn, "Topic") {
-			continue
-		}
-		var writes []ssa.CallInstruction
-		for _, w := range c.storeWriteSinks(fn) {
-			call, ok := w.(*ssa.Call)
-			if !ok {
-				continue
-			}
-			if f, _ := c.isStoreCall(call); f != nil && f.Name() == "LinkAttachments" {
-				continue
-			}
-			if ei := errIndex(call.Call.Signature()); ei >= 0 && errValue(call, ei) != nil {
-				writes = append(writes, call)
-			}
-		}
-		if len(writes) == 0 {
 			continue
 		}
 		core.AllInstrs(fn, func(in ssa.Instruction) {
@@ -213,6 +221,21 @@ func (c *Ctx) checkCacheAfterStore() {
 			if !(strings.Contains(what, "lastID") || strings.Contains(what, "delID") || strings.Contains(what, "owner")) {
 				return
 			}
+			// the handler: this function, or - when the handler was split into phases and the write
+			// sits in another phase - the nearest function up the chain of sole callers that contains one
+			root := fn
+			writes := writesOf(root)
+			for i := 0; i < 2 && len(writes) == 0; i++ {
+				up := c.soleCaller(root)
+				if up == nil {
+					break
+				}
+				root = up
+				writes = writesOf(root)
+			}
+			if len(writes) == 0 {
+				return
+			}
 			r.Func(fk(fn))
 			// every path to the mutation passes a store write of this handler (what happens after a
 			// failed write is decided by C08.1)
@@ -224,9 +247,9 @@ func (c *Ctx) checkCacheAfterStore() {
 				}
 				return false
 			}
-			before, _ := core.PathAvoiding(fn, nil, func(x ssa.Instruction) bool { return x == in }, isWrite, nil)
+			before, _ := core.PathAvoidingX(root, nil, func(x ssa.Instruction) bool { return x == in }, isWrite, nil)
 			ok2 := !before
-			construct := fmt.Sprintf("%s: %s only after a successful store write", fk(fn), what)
+			construct := fmt.Sprintf("%s: %s only after a successful store write", fk(root), what)
 			if n := countSame(r, "C08.5-cache-after-store", construct); n > 0 {
 				construct = fmt.Sprintf("%s #%d", construct, n+1)
 			}
